@@ -339,6 +339,7 @@ class CSSMediaRule(cssrule.CSSRuleRules):
             or isinstance(rule, cssutils.css.CSSImportRule)
             or isinstance(rule, cssutils.css.CSSNamespaceRule)
             or isinstance(rule, cssutils.css.MarginRule)
+            or isinstance(rule, cssutils.css.CSSVariablesRule)
         ):
             self._log.error(
                 '%s: This type of rule is not allowed here: %s'
